@@ -18,15 +18,28 @@ import clastic.route as croute
 WATCH = (os.path.join(runner.REPO, 'clastic') + os.sep, '<sinter')
 
 
+_EP_CACHE = {}
+
+
+def endpoint_for(e, shared):
+    """One endpoint object per (run, tag): an entry added a second time is the SAME route again."""
+    key = (id(shared), e['tag'], e['out'])
+    if key not in _EP_CACHE:
+        if len(_EP_CACHE) > 500:
+            _EP_CACHE.clear()
+        _EP_CACHE[key] = R.make_endpoint(e['tag'], e['out'], shared)
+    return _EP_CACHE[key]
+
+
 def make_route(e, shared=None):
     ms = e['methods']
     if e.get('mform') == 'class' and ms and len(ms) == 1 and hasattr(croute, ms[0].upper()):
         # the convenience class named after the method (clastic.route.GET, POST, ..., OPTIONS, TRACE, CONNECT, PATCH)
-        return getattr(croute, ms[0].upper())(e['pattern'], R.make_endpoint(e['tag'], e['out'], shared))
+        return getattr(croute, ms[0].upper())(e['pattern'], endpoint_for(e, shared))
     if ms is not None:
         # any collection a caller may hand over (an empty one means "no restriction", like None)
         ms = {'class': list, 'list': list, 'tuple': tuple, 'set': set, 'frozenset': frozenset, 'iter': iter, 'gen': lambda m: (x for x in m), 'map': lambda m: map(str, m), 'dictkeys': lambda m: dict.fromkeys(m).keys()}[e.get('mform', 'list')](ms)
-    return Route(e['pattern'], R.make_endpoint(e['tag'], e['out'], shared), methods=ms)
+    return Route(e['pattern'], endpoint_for(e, shared), methods=ms)
 
 
 class C06(Check):
@@ -78,6 +91,10 @@ class C06(Check):
                 # any integer, with list.insert() meaning: also negative, and out of range on either side
                 idx = rng.choice([None, None, None] + list(range(n_routes + 1)) + list(range(-n_routes - 3, 0)) + [n_routes + 2])
                 op = {'op': 'add', 'entry': self.gen_entry(rng, mode, k), 'index': idx}
+                prev = [o['entry'] for o in ops if o.get('entry')] + ctor
+                if prev and rng.random() < 0.2:
+                    # the very same route (pattern, endpoint, methods) once more, somewhere else in the table
+                    op['entry'] = dict(rng.choice(prev))
                 if rng.random() < 0.35:
                     # the table is extended WHILE a request is being served on another thread
                     sch = S['sched']
